@@ -61,27 +61,63 @@ PREDS = {
 }
 
 
-def func(name):
-    """Value-level function (works on bare data and on pairs)."""
-    if name.startswith("tag:"):
-        t = name[4:]
-        return lambda v: (t, v)
-    if name.startswith("ctx:"):
-        # set a context key (creates the pair if needed), in place like real elements
-        key = name[4:]
+class Fn(object):
+    """Value-level function (works on bare data and on pairs), named by a string; an object of
+    a module-level class, so that elements built from it can be pickled as well as copied."""
 
-        def setctx(v):
+    def __init__(self, name):
+        self.name = name
+
+    def __call__(self, v):
+        name = self.name
+        if name.startswith("tag:"):
+            return (name[4:], v)
+        if name.startswith("ctx:"):
+            # set a context key (creates the pair if needed), in place like real elements
+            key = name[4:]
             if has_ctx(v):
                 v[1][key] = _num(v[0])
                 return v
             return (v, {key: _num(v)})
-        return setctx
-    return mapd(DATA_FUNCS[name])
+        f = DATA_FUNCS[name]
+        if has_ctx(v):
+            return (f(v[0]), v[1])
+        return f(v)
+
+    def __repr__(self):
+        return "Fn(%r)" % self.name
+
+
+class Pred(object):
+    def __init__(self, name):
+        self.name = name
+
+    def __call__(self, v):
+        return PREDS[self.name](data_of(v))
+
+    def __repr__(self):
+        return "Pred(%r)" % self.name
+
+
+class DataFn(object):
+    """Getter of a Variable: a function of the data alone."""
+
+    def __init__(self, name):
+        self.name = name
+
+    def __call__(self, d):
+        return DATA_FUNCS[self.name](d)
+
+    def __repr__(self):
+        return "DataFn(%r)" % self.name
+
+
+def func(name):
+    return Fn(name)
 
 
 def pred(name):
-    p = PREDS[name]
-    return lambda v: p(data_of(v))
+    return Pred(name)
 
 
 class Tag(object):
@@ -129,7 +165,7 @@ def build(r):
     if k == "call":
         return func(r[1])
     if k == "var":
-        return lena.variables.Variable(r[1], DATA_FUNCS[r[2]], **(r[3] if len(r) > 3 else {}))
+        return lena.variables.Variable(r[1], DataFn(r[2]), **(r[3] if len(r) > 3 else {}))
     if k == "filter":
         return lena.flow.Filter(pred(r[1]))
     if k == "filtersel":
